@@ -258,7 +258,7 @@ class SimTorProcess(object):
                 acts.append((6, 'tor-write', self.tor_write))
             if self.listener_line_written and not self.listener_open and not run.never_listen:
                 acts.append((14, 'tor-open-listener', self.open_listener))
-            if self.progress_idx < len(run.plan) and self.listener_line_written:
+            if self.progress_idx < len(run.plan) and self.listener_line_written and not run.progress_held():
                 if run.fast_bootstrap or run.any_subscribed():
                     acts.append((4, 'tor-progress', self.tor_progress))
             if run.stderr_mode and not self.stderr_done and sim.steps >= run.stderr_arm:
@@ -548,6 +548,7 @@ class LaunchPeer(CtlPeer):
                 # makes the library connect a second time
                 run.transient_done = True
                 self.sim.fault('takeownership-transient-error')
+                run.hold_progress_from = self.sim.steps if run.ch.chance(1, 2, 'holdprogress') else None
                 self.takeownership.append(551)
                 if run.proc is not None and run.proc.state == 'running':
                     run.proc.script.append(('log', run.listener_line))
@@ -559,6 +560,16 @@ class LaunchPeer(CtlPeer):
             self.takeownership.append(250)
             return ok()
         if line == 'RESETCONF __OwningControllerProcess':
+            if run.own_reject == 4 and not run.transient_done:
+                # fault: ownership was granted on this connection, then a transient error here; Tor announces its control
+                # listener again and the library connects a second time - that connection has to ask for ownership itself
+                run.transient_done = True
+                self.sim.fault('resetconf-transient-error')
+                run.hold_progress_from = self.sim.steps if run.ch.chance(1, 2, 'holdprogress') else None
+                self.resetconf.append(551)
+                if run.proc is not None and run.proc.state == 'running':
+                    run.proc.script.append(('log', run.listener_line))
+                return err(551, 'Internal error')
             if run.own_reject == 2:
                 self.sim.probe('resetconf-rejected')
                 self.resetconf.append(552)
@@ -645,7 +656,7 @@ class LaunchRun(object):
 
     def draw_config(self):
         ch = self.ch
-        self.T = ch.pick([30, 5, 120], 'T')
+        self.T = ch.pick([30, 5, 120, 2.5, 0.75, 30.0], 'T')     # (seconds; a float is as good as an int)
         self.user_dir = ch.chance(1, 3, 'userdir')
         self.user_dir_pre = ch.chance(1, 2, 'predir') if self.user_dir else False
         self.config_dir = (not self.user_dir) and ch.chance(1, 5, 'configdir')
@@ -657,7 +668,7 @@ class LaunchRun(object):
         self.cookie_state = ['ok', 'missing', 'short'][ch.weighted([22, 1, 1], 'cookie')]
         self.refuse = ch.chance(1, 14, 'refuse')
         self.never_listen = ch.chance(1, 24, 'neverlisten')
-        self.own_reject = ch.weighted([8, 1, 1, 1], 'ownreject')
+        self.own_reject = ch.weighted([8, 1, 1, 1, 1], 'ownreject')
         self.transient_done = False
         self.plan = list(PROGRESS_PLANS[ch.weighted([4, 4, 3, 1, 1], 'plan')])
         self.fast_bootstrap = ch.chance(1, 8, 'fastboot')
@@ -704,6 +715,17 @@ class LaunchRun(object):
 
     def fail(self, sig, msg):
         self.sim.fail(sig, self.norm(msg))
+
+    hold_progress_from = None
+
+    def progress_held(self):
+        """after a transient error on the first control connection Tor's bootstrap may well take longer than the library
+        needs to connect again: no further progress until a second connection has subscribed (bounded)"""
+        if self.hold_progress_from is None:
+            return False
+        if self.sim.steps - self.hold_progress_from > 400:
+            return False
+        return sum(1 for p in self.peers if p.subscribed and p.authenticated and not p.gone) < 2
 
     def any_subscribed(self):
         return any(p.subscribed and p.authenticated and not p.gone for p in self.peers)
@@ -1075,9 +1097,10 @@ class LaunchRun(object):
         sim.add_source(self.workload_actions)
         control_port = 9051 if self.tcp else None
         sim.probe('control-tcp' if self.tcp else 'control-unix')
-        sim.log('launch', 'T=%d' % self.T, 'caller-dir' if self.user_dir else 'temp-dir',
+        sim.log('launch', 'T=%s' % self.T, 'caller-dir' if self.user_dir else 'temp-dir',
                 'tcp' if self.tcp else 'unix', 'kill_on_stderr=%s' % self.kill_on_stderr, self.auth_methods,
                 'cookie-' + self.cookie_state)
+        timers_before = set(id(t) for t in sim.pending_timers())
         d = txtorcon.launch(sim.reactor,
                             progress_updates=self.guard(self.on_progress),
                             control_port=control_port,
@@ -1106,6 +1129,12 @@ class LaunchRun(object):
         else:
             self.ctl_kind, self.ctl_key = 'tcp', int(cp)
         timers = [t for t in sim.pending_timers() if abs(t.time - (sim.now + self.T)) < 1e-9]
+        fresh = [t for t in sim.pending_timers() if id(t) not in timers_before]
+        if not timers and not fresh:
+            self.fail('C19.timeout-not-armed', 'launch(timeout=%s) armed no timer at all: the launch can never fail by timeout' % self.T)
+        if not timers and len(fresh) == 1:
+            self.fail('C19.timeout-armed-for-another-time', 'launch(timeout=%s) armed its timeout for %s seconds from now' % (
+                self.T, round(fresh[0].time - sim.now, 6)))
         if len(timers) != 1:
             raise HarnessError('expected exactly one launch timeout timer, found %d' % len(timers))
         self.timeout_dc = timers[0]
@@ -1133,7 +1162,7 @@ class LaunchRun(object):
                 sim.drain(max_steps=5000, fire_timers=True, on_step=self.after_step)
                 if self.launch.fired == 0:
                     self.fail('C19.result-pending-after-timeout',
-                              'more than timeout=%ds of virtual time have passed without a 100%% report, the process is alive, '
+                              'more than timeout=%ss of virtual time have passed without a 100%% report, the process is alive, '
                               'and launch() has neither failed nor signalled the process (the timeout timer was no longer '
                               'pending)' % self.T)
         if self.launch.ok:
